@@ -74,6 +74,14 @@ def oct2bitstore(octstring: str) -> BitStore:
     return BitStore(ba)
 
 
+def _to_float(f: Union[str, int, float]) -> float:
+    try:
+        return float(f)
+    except OverflowError:
+        # An integer too large for any float overflows to infinity, as a float too large for the format does.
+        return float('inf') if f > 0 else float('-inf')
+
+
 def _to_int(i: Union[str, int, float]) -> int:
     try:
         return int(i)
@@ -121,7 +129,7 @@ def sie2bitstore(i: Union[str, int]) -> BitStore:
 
 
 def bfloat2bitstore(f: Union[str, float], big_endian: bool) -> BitStore:
-    f = float(f)
+    f = _to_float(f)
     fmt = '>f' if big_endian else '<f'
     try:
         b = struct.pack(fmt, f)
@@ -132,19 +140,19 @@ def bfloat2bitstore(f: Union[str, float], big_endian: bool) -> BitStore:
 
 
 def p4binary2bitstore(f: Union[str, float]) -> BitStore:
-    f = float(f)
+    f = _to_float(f)
     u = p4binary_fmt.float_to_int8(f)
     return int2bitstore(u, 8, False)
 
 
 def p3binary2bitstore(f: Union[str, float]) -> BitStore:
-    f = float(f)
+    f = _to_float(f)
     u = p3binary_fmt.float_to_int8(f)
     return int2bitstore(u, 8, False)
 
 
 def e4m3mxfp2bitstore(f: Union[str, float]) -> BitStore:
-    f = float(f)
+    f = _to_float(f)
     if bitstring.options.mxfp_overflow == 'saturate':
         u = e4m3mxfp_saturate_fmt.float_to_int(f)
     else:
@@ -153,7 +161,7 @@ def e4m3mxfp2bitstore(f: Union[str, float]) -> BitStore:
 
 
 def e5m2mxfp2bitstore(f: Union[str, float]) -> BitStore:
-    f = float(f)
+    f = _to_float(f)
     if bitstring.options.mxfp_overflow == 'saturate':
         u = e5m2mxfp_saturate_fmt.float_to_int(f)
     else:
@@ -162,7 +170,7 @@ def e5m2mxfp2bitstore(f: Union[str, float]) -> BitStore:
 
 
 def e3m2mxfp2bitstore(f: Union[str, float]) -> BitStore:
-    f = float(f)
+    f = _to_float(f)
     if math.isnan(f):
         raise ValueError("Cannot convert float('nan') to e3m2mxfp format as it has no representation for it.")
     u = e3m2mxfp_fmt.float_to_int(f)
@@ -170,7 +178,7 @@ def e3m2mxfp2bitstore(f: Union[str, float]) -> BitStore:
 
 
 def e2m3mxfp2bitstore(f: Union[str, float]) -> BitStore:
-    f = float(f)
+    f = _to_float(f)
     if math.isnan(f):
         raise ValueError("Cannot convert float('nan') to e2m3mxfp format as it has no representation for it.")
     u = e2m3mxfp_fmt.float_to_int(f)
@@ -178,7 +186,7 @@ def e2m3mxfp2bitstore(f: Union[str, float]) -> BitStore:
 
 
 def e2m1mxfp2bitstore(f: Union[str, float]) -> BitStore:
-    f = float(f)
+    f = _to_float(f)
     if math.isnan(f):
         raise ValueError("Cannot convert float('nan') to e2m1mxfp format as it has no representation for it.")
     u = e2m1mxfp_fmt.float_to_int(f)
@@ -189,7 +197,7 @@ e8m0mxfp_allowed_values = [float(2 ** x) for x in range(-127, 128)]
 
 
 def e8m0mxfp2bitstore(f: Union[str, float]) -> BitStore:
-    f = float(f)
+    f = _to_float(f)
     if math.isnan(f):
         return BitStore('11111111')
     try:
@@ -200,7 +208,7 @@ def e8m0mxfp2bitstore(f: Union[str, float]) -> BitStore:
 
 
 def mxint2bitstore(f: Union[str, float]) -> BitStore:
-    f = float(f)
+    f = _to_float(f)
     if math.isnan(f):
         raise ValueError("Cannot convert float('nan') to mxint format as it has no representation for it.")
     f *= 2 ** 6  # Remove the implicit scaling factor
@@ -250,7 +258,7 @@ def intle2bitstore(i: int, length: int, signed: bool) -> BitStore:
 
 
 def float2bitstore(f: Union[str, float], length: int, big_endian: bool) -> BitStore:
-    f = float(f)
+    f = _to_float(f)
     fmt = {16: '>e', 32: '>f', 64: '>d'}[length] if big_endian else {16: '<e', 32: '<f', 64: '<d'}[length]
     try:
         b = struct.pack(fmt, f)
